@@ -145,6 +145,7 @@ func checkC04(r *Run) {
 		6: r.Rule("R-C04-6", "hold buffer is a non-escaping local of serve; serve started only by Connect's go statement; Transport is read only via serve"),
 		7: r.Rule("R-C04-7", "handler is loaded per message under c.mu"),
 		8: r.Rule("R-C04-8", "minimum-length guards of PUBLISH/PUBREL parsing are exact: no well-formed minimal packet is rejected"),
+		9: r.Rule("R-C04-9", "the Message parsed from a PUBLISH is a fresh object per packet: a message held for its PUBREL is not the object the next PUBLISH is parsed into"),
 	}
 	m, why := c.serveModel()
 	if m == nil {
@@ -170,6 +171,7 @@ func checkC04(r *Run) {
 	if specPacketType[pub.K] != "pktPublish" {
 		rr[5].Bad("serve/PUBLISH", pub.Parse.Pos(), "the arm parsing PUBLISH is selected by packet type 0x%02X", pub.K)
 	}
+	c.ruleParsedMessageFresh(rr[9], pub)
 	// message of the arm: loads of pub.Pkt.Message
 	isParsedMsg := func(v ssa.Value) bool {
 		b, ok := isFieldLoad(c.Resolve(v), "pktPublish", "Message")
@@ -596,6 +598,74 @@ func checkC04(r *Run) {
 	// ---- R-C04-8
 	c.ruleGuardTightness(rr[8], []string{"pktPublish", "pktPubRel"})
 	c.ruleUnpackStringConsumes(rr[8])
+}
+
+// ruleParsedMessageFresh (R-C04-9): the *Message that serve gets from (*pktPublish).Parse is allocated per packet. Either Parse
+// stores a fresh allocation into the packet's Message field on every successful path, or every store it makes to that
+// field is a fresh allocation and the packet struct it is called on is itself allocated inside the arm (so the field was
+// nil on entry). Otherwise two PUBLISH packets can share one Message: the one held for PUBREL is overwritten by the next.
+func (c *Ctx) ruleParsedMessageFresh(rr *RuleRep, pub *serveArm) {
+	key := "serve/PUBLISH/message-object"
+	g := c.StaticCalleeOf(&pub.Parse.Call)
+	if g == nil || len(g.Params) == 0 {
+		rr.Undecided(key, pub.Parse.Pos(), "cannot resolve the PUBLISH parser")
+		return
+	}
+	recvFresh := false
+	if al, ok := c.Resolve(pub.Parse.Call.Args[0]).(*ssa.Alloc); ok && pub.Instr[al] {
+		recvFresh = true
+	}
+	msgField := c.structField("pktPublish", "Message")
+	isFreshStore := func(in ssa.Instruction) (bool, bool) { // (is a store to .Message of the result object, value is fresh)
+		st, ok := in.(*ssa.Store)
+		if !ok {
+			return false, false
+		}
+		fa, ok := st.Addr.(*ssa.FieldAddr)
+		if !ok {
+			return false, false
+		}
+		if _, fld := fieldOf(fa); fld != msgField || msgField == nil {
+			return false, false
+		}
+		_, fresh := c.Resolve(st.Val).(*ssa.Alloc)
+		return true, fresh
+	}
+	nStores, allFresh := 0, true
+	eachInstr(g, func(in ssa.Instruction) {
+		if is, fresh := isFreshStore(in); is {
+			nStores++
+			if !fresh {
+				allFresh = false
+			}
+		}
+	})
+	must := nStores > 0
+	returnsRecv := true
+	for _, ret := range returnsOf(g) {
+		if len(ret.Results) != 2 || !isNilConst(c.Resolve(ret.Results[1])) {
+			continue // error return
+		}
+		rv := c.Resolve(ret.Results[0])
+		if rv != ssa.Value(g.Params[0]) {
+			if _, isAl := rv.(*ssa.Alloc); !isAl {
+				returnsRecv = false
+			}
+		}
+		if !Dominated(g, ret, func(in ssa.Instruction) bool { is, fresh := isFreshStore(in); return is && fresh }, PathQ{}) {
+			must = false
+		}
+	}
+	switch {
+	case !returnsRecv:
+		rr.Undecided(key, pub.Parse.Pos(), "Parse returns neither its receiver nor a fresh packet")
+	case must && allFresh:
+		rr.OK(key, pub.Parse.Pos(), "%s stores a fresh Message into the packet on every successful path", FuncName(g))
+	case recvFresh && allFresh && nStores > 0:
+		rr.OK(key, pub.Parse.Pos(), "the packet struct is allocated per PUBLISH and %s only ever stores fresh Messages into it", FuncName(g))
+	default:
+		rr.Bad(key, pub.Parse.Pos(), "PUBLISH packets can be parsed into one shared Message object (the packet struct outlives the arm and %s re-uses its Message): a QoS 2 message held for its PUBREL is overwritten by the next PUBLISH — the later message is handed over twice and the held one never", FuncName(g))
+	}
 }
 
 // ruleReaderDiscipline: readPacket reads from the reader it is given only through io.ReadFull (no per-call buffering wrapper that
